@@ -1893,15 +1893,18 @@ func (r stack) defaultAssertionHandler(x any) (str string) {
 	// was reported within go-aci, an application that imports
 	// stackage.
 	if Xs, _ := stackTypeAliasConverter(x); Xs.IsInit() {
-		ik, ic := Xs.stack.typ() // make note of inner stack type
-		if ic == not && len(Xs.getSymbol()) == 0 {
+		// make note of inner stack type; the word comes
+		// back in the nested stack's own (folded) case
+		ik, ic := Xs.stack.typ()
+		inner := Xs.String()
+		if ic == not && len(Xs.getSymbol()) == 0 && len(inner) > 0 {
 			// Handle NOTs a little differently
 			// when nested and when not using
-			// symbol operators ...
-			ik = foldValue(Xs.positive(cfold), ik)
-			str = ik + ` ` + Xs.String()
+			// symbol operators; an empty NOT
+			// contributes nothing at all.
+			str = ik + ` ` + inner
 		} else {
-			str = Xs.String()
+			str = inner
 		}
 
 	} else if Xc, _ := conditionTypeAliasConverter(x); Xc.IsInit() {
